@@ -14,7 +14,7 @@ structure InferPost (ctx : Ctx) (t : Skel) (bd : List Ty) (st : St) (t' : Skel) 
   typ : ∀ τ, Solves τ st'.uf → checkedGetType (t'.substI τ) (bd.map (Ty.substI τ)) = some (T.substI τ)
 
 theorem lookup_cons_self {n : String} {T : Ty} {l : List (String × Ty)} : ((n, T) :: l).lookup n = some T := by
-  simp [List.lookup_cons]
+  simp
 
 theorem lookup_cons_mono {n : String} {T : Ty} {l : List (String × Ty)} (hn : l.lookup n = none)
     (n' : String) (T' : Ty) (h : l.lookup n' = some T') : ((n, T) :: l).lookup n' = some T' := by
